@@ -60,4 +60,6 @@ Definition dispatch (cmd : string) (arg : sexp) : sexp :=
   else if String.eqb cmd "c06.query" then Model.Collections.run_query_wire gen.Collections.coll_env arg
   else if String.eqb cmd "c06.subst" then Model.Collections.run_subst_wire arg
   else if String.eqb cmd "c06.tables" then Model.Collections.run_tables_wire gen.Collections.coll_env
+  else if String.eqb cmd "c01.fragrow" then FragTranslate.run_fragrow arg
+  else if String.eqb cmd "c01.denote_row" then FragTranslate.run_denote_row arg
   else s_tag "unknown-command" [SAtom cmd].
